@@ -272,7 +272,9 @@ def addr_case(res, W, rng, lst, setting, slow=False, connect_timeout=None):
             net_.listen(ip, 8080, ("error", errs[ip]))
     # option names are only unique within their level: SO_SNDBUF == TCP_SYNCNT == 7, SO_RCVBUF == TCP_LINGER2 == 8 on Linux
     user_opts = [[], [(_socket.SOL_SOCKET, _socket.SO_RCVBUF, 4096 + setting), (_socket.IPPROTO_TCP, getattr(_socket, "TCP_LINGER2", 8), 7)],
-                 [(_socket.SOL_SOCKET, _socket.SO_SNDBUF, 20000), (_socket.IPPROTO_TCP, getattr(_socket, "TCP_SYNCNT", 7), 3), (_socket.SOL_SOCKET, _socket.SO_SNDBUF, 30000)]][setting]
+                 # (the last entry: setsockopt()'s other call form, (level, optname, None, optlen) - here: clear the IP options)
+                 [(_socket.SOL_SOCKET, _socket.SO_SNDBUF, 20000), (_socket.IPPROTO_TCP, getattr(_socket, "TCP_SYNCNT", 7), 3), (_socket.SOL_SOCKET, _socket.SO_SNDBUF, 30000),
+                  (_socket.IPPROTO_IP, getattr(_socket, "IP_OPTIONS", 4), None, 0), (_socket.SOL_SOCKET, _socket.SO_KEEPALIVE, b"\x01\x00\x00\x00")]][setting]
     timeout = [3, 7.5, None][setting]
     via = ["create_connection", "default-timeout", "connect"][(len(lst) + sum(map(len, lst)) + setting) % 3]
     if connect_timeout is not None:
